@@ -285,6 +285,7 @@ class Executor:
     self.with_ordinals = {}
     self.call_counter = {}
     self.depth = 0
+    self.adhoc = {}        # module-level variables that are not declared state fields (see lookup)
 
   # -- small helpers -----------------------------------------------------------
   @property
@@ -352,7 +353,12 @@ class Executor:
   def snapshot_state(self):
     return {k: snapshot(v) for k, v in self.G.items()}
 
+  def havoc_adhoc(self):
+    """Other code may have run: forget what is known about undeclared module variables."""
+    self.adhoc.clear()
+
   def havoc_state(self, names, tag='hv'):
+    self.havoc_adhoc()
     for n in names:
       self.G[n] = self.assume_wf(working_copy(self.state_spec[n].fresh(
           self.path.fresh_name(f'{tag}_{n}'))))
@@ -371,6 +377,14 @@ class Executor:
         self.path.oblige(f'{self.contract.qual}/lock/{name}/accessed_under_lock',
                          self.G[lockf].e > 0)
       return self.G[name]
+    if name in self.adhoc:
+      return self.adhoc[name]
+    k = self.world.adhoc_global_kind(self, fr.fname, name)
+    if k is not None:
+      # a mutable module-level variable outside the declared state: arbitrary on first read,
+      # stable until the next point at which other code may run (havoc_adhoc)
+      self.adhoc[name] = self.assume_wf(working_copy(k.fresh(self.path.fresh_name('g_' + name))))
+      return self.adhoc[name]
     w = self.world.resolve_global(self, fr.fname, name)
     if w is not None:
       return w
@@ -388,7 +402,11 @@ class Executor:
     fr = self.frame
     if name in fr.globals_declared:
       if name not in self.G:
-        self.oos(f'global {name} is not a declared state field', node)
+        k = self.world.adhoc_global_kind(self, fr.fname, name)
+        if k is None:
+          self.oos(f'global {name} is not a declared state field', node)
+        self.adhoc[name] = coerce(self.world.materialize(self, w, k), k)
+        return
       self.G[name] = coerce(self.world.materialize(self, w, self.state_spec[name]),
                             self.state_spec[name])
       return
@@ -588,6 +606,7 @@ class Executor:
     self.check_frame(ctx, 'enter')
     self.cm_body_exc = None
     # the body of the client's `with` runs here: arbitrary but bounded by body_frame
+    self.havoc_adhoc()
     if c.cm_body_havoc:
       self.havoc_state(sorted(c.cm_body_havoc), 'body')
     ctxb = self.ctx(mid=self.cm_mid)
@@ -1038,6 +1057,7 @@ class Executor:
     choice = path.choose(2, f'loop#{n}')
     # havoc everything the body may change
     self.havoc_locals(names, n)
+    self.havoc_adhoc()
     ghost_names = getattr(spec, 'ghost_havoc', None)
     k = path.fresh_const(f'k{n}', sym.IntS)
     if choice == 0:
@@ -1936,6 +1956,7 @@ class Executor:
     cn = self.call_counter.get(c.qual, 0)
     self.call_counter[c.qual] = cn + 1
     site = f'{q}/call:{c.qual.split("::")[-1]}#{cn}'
+    self.havoc_adhoc()
     a = {}
     names = list(c.params)
     pos = list(args)
@@ -2051,6 +2072,7 @@ class Executor:
       r = c.opaque_model(self, fn, args, kwargs, node)
       if r is not None:
         return r
+    self.havoc_adhoc()
     ev = {'fn': fn, 'args': args, 'kwargs': kwargs,
           'state': self.snapshot_state(), 'node': node}
     self.path.trace.append(ev)
